@@ -2,7 +2,9 @@
 the killed-walker fraction lies in [0,1].  Decided as ONE inductive step in IEEE-754 from an arbitrary valid pre-state
 (every weight a finite double >= 0) with everything upstream havocked: the invariant is preserved by each step, hence by
 every history of steps and blocks."""
-from . import propf, cpmcf
+from vf import engine, qdom
+from vf.qdom import Q
+from . import propf, cpmcf, c08
 
 META = {
     "level": "model_checking",
@@ -22,6 +24,57 @@ META = {
 }
 
 
+class KilledFraction(c08.Coherence):
+    """the killed-walker fraction every sampler entry point reports: with propagate(), QR, SR and the energy routines uninterpreted (so the
+    weights after each block are ARBITRARY reals), the reported number is  sum_blocks (n_walkers - count_nonzero(weights)) / (n_sr_blocks *
+    n_ene_blocks * n_walkers)  and lies in [0, 1] whatever the weights are (count_nonzero stays symbolic: a sum of if-then-else terms)."""
+    check_id = "C09"
+    assume_inverted_nonzero = False  # the count involves no quotient: block weight sums may be zero (extinction) as far as this obligation goes
+
+    def __init__(self, args):
+        super().__init__(args)
+        self.name = "killed-fraction:" + self.name.split(":", 1)[1]
+
+    def functions(self):
+        return [f"ad_afqmc.sampling.sampler.{self.entry}", "ad_afqmc.sampling.sampler._block_scan (n_killed_walkers accounting)"]
+
+    def call(self, **kw):
+        import jax.numpy as jnp
+        if self.restricted:
+            C = kw["C"]
+            wd = {"mo_coeff": C, "rdm1": jnp.array([C @ C.T, C @ C.T])}
+            W = kw["Wu"]
+        else:
+            wd = {"mo_coeff": [kw["Cu"], kw["Cd"]], "rdm1": jnp.array([kw["Cu"] @ kw["Cu"].T, kw["Cd"] @ kw["Cd"].T])}
+            W = [kw["Wu"], kw["Wd"]]
+        hd = dict(self.hd0)
+        pd = {"walkers": W, "weights": kw["weights"], "overlaps": kw["stale"], "e_estimate": kw["Es"], "pop_control_ene_shift": kw["Es"],
+              "key": self.key, "n_killed_walkers": 0}
+        s = self.sampler
+        if self.entry == "propagate_phaseless":
+            hd = self.ham.build_measurement_intermediates(hd, self.trial, wd)
+            hd = self.ham.build_propagation_intermediates(hd, self.prop, self.trial, wd)
+            e, pd = s.propagate_phaseless(self.ham, hd, self.prop, pd, self.trial, wd)
+        else:
+            obs = jnp.zeros_like(hd["h1"])
+            e, pd = getattr(s, self.entry)(self.ham, hd, 0.0, obs, self.prop, pd, self.trial, wd)
+        return pd["n_killed_walkers"]
+
+    def relations(self, inp, out):
+        x = out[()] if hasattr(out, "shape") else out
+        if isinstance(x, (float, complex)):
+            x = complex(x).real
+            return [("killed_fraction_in_[0,1]", min(max(x, 0.0), 1.0), x)]
+        x = Q.lift(x)
+        clipped = qdom.ite(qdom.compare("lt", x, Q(0)), Q(0), qdom.ite(qdom.compare("gt", x, Q(1)), Q(1), x))
+        n_prop = sum(1 for name, _ in self.interp.call_log if name == "propagate") if getattr(self, "interp", None) is not None else None
+        expect = self.blocks[0] * self.blocks[1] * (1 if "nosr" in self.entry else self.blocks[2])
+        rels = [("killed_fraction_in_[0,1]", clipped, x)]
+        if n_prop is not None:
+            rels.append(("propagate_entries_observed", Q(n_prop), Q(expect)))
+        return rels
+
+
 def cases(tier):
     out = [{"type": "phaseless", "check_id": "C09", "mode": "invariants", "restricted": False, "n_walkers": 2, "dt": 0.01},
            {"type": "phaseless", "check_id": "C09", "mode": "invariants", "restricted": True, "n_walkers": 2, "dt": 0.01}]
@@ -29,12 +82,19 @@ def cases(tier):
         out += [{"type": "phaseless", "check_id": "C09", "mode": "invariants", "restricted": False, "n_walkers": 3, "dt": 0.5},
                 {"type": "phaseless", "check_id": "C09", "mode": "invariants", "restricted": True, "n_walkers": 2, "dt": 1e-6}]
     out += cpmcf.cases(tier)
+    for entry in c08.ENTRIES:
+        out.append({"type": "killed", "entry": entry, "restricted": False, "blocks": [2, 2, 2]})
+    out.append({"type": "killed", "entry": "propagate_phaseless", "restricted": True, "blocks": [1, 2, 3]})
     return out
 
 
 def run(args, seed, known):
+    if args["type"] == "killed":
+        return engine.run_case(KilledFraction(args), seed=seed, known=known)
     return propf.run(args, seed, known) if args["type"] == "phaseless" else cpmcf.run(args, seed, known)
 
 
 def replay(data):
+    if data["case_args"]["type"] == "killed":
+        return engine.replay_file(KilledFraction(data["case_args"]), data)
     return propf.replay(data) if data["case_args"]["type"] == "phaseless" else cpmcf.replay(data)
